@@ -376,12 +376,21 @@ class PiecewiseConstantBirthDeath(Distribution):
                     * (~is_rho_tip)
                 ).sum(-1)
 
+        # number of leaves sampled at time t_i for 1,...,m
+        N = torch.sum(
+            times[..., 1:].unsqueeze(-2) == torch.unsqueeze(y, -1),
+            -2,
+        )
+
         # last term
         if m > 1:
             # number of degree 2 vertices at time t_i for 1,...,m-1 *(n_m=0)
+            # a tip sampled exactly at t_i is a rho-sampled tip if rho_i > 0,
+            # otherwise it belongs to the next interval and crosses t_i
             ni = (
                 torch.sum(x.unsqueeze(-2) < times[..., 1:].unsqueeze(-1), -1)
-                - torch.sum(y.unsqueeze(-2) <= times[..., 1:].unsqueeze(-1), -1)
+                - torch.sum(y.unsqueeze(-2) < times[..., 1:].unsqueeze(-1), -1)
+                - N * (rho > 0.0)
             )[..., :-1] + 1.0
 
             # contemporenaous term
@@ -392,12 +401,6 @@ class PiecewiseConstantBirthDeath(Distribution):
                     + torch.log(1.0 - rho[..., :-1])
                 )
             ).sum(-1)
-
-        # number of leaves sampled at time t_i for 1,...,m
-        N = torch.sum(
-            times[..., 1:].unsqueeze(-2) == torch.unsqueeze(y, -1),
-            -2,
-        )
 
         if self.removal_probability is not None and m > 1:
             r = self.removal_probability.gather(-1, indices_y)[..., 1:]
